@@ -184,6 +184,10 @@ class PrinterDomain(TermDomain):
             return [(r, store)]
         if c is not None and c[0] == "BigInt" and c[1] == "abs" and len(vals) == 1:
             return [(T("abs", vals[0]), store)]
+        if c is not None and c[0] == "BigInt" and c[1] in ("div_rem", "div_mod_floor") and len(vals) == 2:
+            return [(Agg("tuple", None, None, None, (T("idiv", vals[0], vals[1]), T("irem", vals[0], vals[1]))), store)]
+        if c is not None and c[0] == "BigInt" and c[1] in ("div_floor", "mod_floor") and len(vals) == 2:
+            return [(T("idiv" if c[1] == "div_floor" else "irem", vals[0], vals[1]), store)]
         return super().call(it, name, args, store, term, frame)
 
     # ---- iterators -------------------------------------------------------------------------------------------------
@@ -397,82 +401,92 @@ def r1_generator(facts, rep, names):
 
 # ---- segments: exploration between stop points ----------------------------------------------------------------------
 class Seg:
-    __slots__ = ("end", "value", "out", "pc", "store", "pulled", "kind", "site")
+    __slots__ = ("end", "value", "out", "pc", "store", "pulled", "kind", "site", "frame", "body", "iseg")
 
-    def __init__(self, o):
-        self.kind = o.kind
-        self.end = o.value if o.kind == "stop" else o.kind
-        self.value = o.value
-        self.store = o.store
-        self.out = o.store.get(("out",), ())
-        self.pc = pc_dict(o.store)
-        self.pulled = o.store.get(("pulled",), ())
-        self.site = o.site
+    def __init__(self, iseg):
+        self.iseg = iseg
+        self.kind = iseg.kind
+        self.end = iseg.loop if iseg.kind == "stop" else iseg.kind
+        self.value = iseg.value
+        self.store = iseg.store
+        self.out = iseg.store.get(("out",), ())
+        self.pc = pc_dict(iseg.store)
+        self.pulled = iseg.store.get(("pulled",), ())
+        self.site = iseg.site
+        self.frame = iseg.frame
+        self.body = iseg.body
 
     def __repr__(self):
         return "<seg ->%s out=%s pc=%s>" % (self.end, describe_out(self.out), self.pc)
 
 
 class Harness:
+    """Exploration between loop heads (absint/induct.py): the loops may sit in the analysed function or in helpers it calls.
+    A loop is identified by (function path, block); `heads` lists those of the analysed function first."""
+
     def __init__(self, facts, body, no_inline=()):
+        from ..absint import induct
         self.facts, self.body = facts, body
         self.no_inline = set(no_inline)
-        self.heads = loop_heads(body)
+        self.ind = induct.Induct(facts, body, lambda: PrinterDomain(facts, no_inline=self.no_inline), budget=80000, exclude=self.no_inline)
+        own = [(body.path, h_) for h_ in loop_heads(body)]
+        self.heads = own + [l for l in self.ind.all_loops() if l not in own]
+        self.arrivals = {}
         self.dom = None
         self.it = None
         self.any_closures = []
 
-    def run(self, args=None, start=None, extra=None):
-        self.dom = PrinterDomain(self.facts, no_inline=self.no_inline)
-        self.it = core.Interp(self.facts, self.dom, budget=80000)
-        if start is None:
-            st0 = dict(extra or {})
-            outs = self.it.run(self.body, args, st0, stop=set(self.heads))
-        else:
-            st = dict(start[1])
-            st[("pc",)] = tuple((extra or {}).get("pc", ()))
-            st[("out",)] = ()
-            st[("pulled",)] = ()
-            st[("rem_now",)] = R
-            for k, v in (extra or {}).items():
-                if k != "pc":
-                    st[k] = v
-            outs = self.it.run(self.body, [], {}, start=(start[0], st), stop=set(self.heads))
+    def _wrap(self, isegs):
+        self.dom, self.it = self.ind.dom, self.ind.it
         self.any_closures.extend(self.dom.any_closures)
-        return [Seg(o) for o in outs]
+        out = []
+        for g in isegs:
+            sg = Seg(g)
+            if sg.kind == "stop" and sg.end not in self.arrivals:
+                self.arrivals[sg.end] = g
+            out.append(sg)
+        return out
 
-    def local(self, seg_or_store, l):
+    def run(self, args=None, start=None, extra=None):
+        if start is None:
+            return self._wrap(self.ind.from_entry(args, dict(extra or {})))
+        H, st0 = start
+        st = dict(st0)
+        st[("pc",)] = tuple((extra or {}).get("pc", ()))
+        st[("out",)] = ()
+        st[("pulled",)] = ()
+        st[("rem_now",)] = R
+        for k, v in (extra or {}).items():
+            if k != "pc":
+                st[k] = v
+        return self._wrap(self.ind.turn(self.arrivals[H], st))
+
+    def frame(self, H):
+        return self.arrivals[H].frame
+
+    def body_of(self, H):
+        return self.arrivals[H].body
+
+    def local(self, seg_or_store, l, frame=None):
         st = seg_or_store.store if isinstance(seg_or_store, Seg) else seg_or_store
-        return self.it.read_ref(st, Ref(1, l))
+        if frame is None:
+            frame = seg_or_store.frame if isinstance(seg_or_store, Seg) and seg_or_store.kind == "stop" else 1
+        return self.it.read_ref(st, Ref(frame, l))
 
-    def live_at(self, head):
+    def live_at(self, H):
         from .. import cfg as _cfg
-        live = getattr(self.body, "_live", None) or _cfg.liveness(self.body)
-        self.body._live = live
-        return set(live[0][head]) | set(live[1])
+        b = self.body_of(H)
+        live = getattr(b, "_live", None) or _cfg.liveness(b)
+        b._live = live
+        return set(live[0][H[1]]) | set(live[1])
 
-    def variant_locals(self, head):
-        """Locals assigned or mutably borrowed inside the loop of `head` that are live at the head."""
-        from .. import cfg as _cfg
-        live = getattr(self.body, "_live", None) or _cfg.liveness(self.body)
-        self.body._live = live
-        live_in, addr = live
-        blocks = loop_blocks(self.body, head)
-        v = set()
-        for bid in blocks:
-            b = self.body.blocks[bid]
-            for s in b["stmts"]:
-                if s["k"] != "assign":
-                    continue
-                if not any(e["k"] == "deref" for e in s["place"]["proj"]):
-                    v.add(s["place"]["local"])
-                rv = s["rv"]
-                if rv["k"] == "ref" and rv.get("mut") and not any(e["k"] == "deref" for e in rv["place"]["proj"]):
-                    v.add(rv["place"]["local"])
-            t = b["term"]["t"]
-            if t["k"] == "call" and not t["dest"]["proj"]:
-                v.add(t["dest"]["local"])
-        return {l for l in v if l in live_in[head] or l in addr}
+    def variant_locals(self, H):
+        """Locals of the loop's own frame that the loop can change and that are live at its head."""
+        from .. import loops as L_
+        return L_.variant_locals(self.body_of(H), H[1])
+
+    def ty(self, H, l):
+        return self.body_of(H).local_ty(l)
 
 
 def find_iters(it, st, frame=1, live=None):
@@ -622,7 +636,13 @@ def r2_dispatch(facts, rep, names):
                        "budget `limit` and the generator over (remainder, den)")
     body = facts.fn(FMT)
     local_callees = sorted({nm for blk, t, sp, nm in body.calls() if facts.fn(nm) is not None})
-    no_inline = [n for n in local_callees if n != names.get("emit")]
+    # the three forms and digits() are analysed on their own (they contain the loops); small helpers are followed
+    from ..callgraph import CallGraph
+    cg = CallGraph(facts)
+
+    def has_loop(p_):
+        return any(facts.fn(q) is not None and loop_heads(facts.fn(q)) for q in cg.reachable([p_]) if facts.fn(q) is not None and "{closure" not in q)
+    no_inline = [n for n in local_callees if n != names.get("emit") and has_loop(n)]
     h = Harness(facts, body, no_inline=no_inline)
     st0, selfref = display_self({})
     try:
@@ -752,8 +772,9 @@ def r2_dispatch(facts, rep, names):
             badd.append("prologue paths: %s" % pro)
         else:
             vs = hd.variant_locals(Hh)
-            big_l = [l for l in vs if "BigInt" in db.local_ty(l)]
-            cnt_l = [l for l in vs if db.local_ty(l) == "usize"]
+            FH = hd.frame(Hh)
+            big_l = [l for l in vs if "BigInt" in hd.ty(Hh, l)]
+            cnt_l = [l for l in vs if hd.ty(Hh, l) == "usize"]
             if len(big_l) != 1 or len(cnt_l) != 1:
                 badd.append("loop state: %s" % sorted(vs))
             else:
@@ -761,8 +782,8 @@ def r2_dispatch(facts, rep, names):
                 if not same(w0, T("idiv", Sym("W"), K(10)), GW) or c0 != Const(0):
                     badd.append("before the loop: value %r count %r; specified W/10 and 0" % (w0, c0))
                 st = dict(stp[0].store)
-                st[(1, big_l[0])] = Sym("W")
-                st[(1, cnt_l[0])] = Sym("c")
+                st[(FH, big_l[0])] = Sym("W")
+                st[(FH, cnt_l[0])] = Sym("c")
                 try:
                     step = hd.run(start=(Hh, st))
                 except core.Undecided as e:
@@ -834,7 +855,7 @@ def r4_whole(facts, rep, names):
             if a[0] == "val" and isinstance(a[1], Sym) and a[1].name.startswith("a"):
                 roles["div"] = a[1].name
     if stop:
-        for l, v in find_iters(h.it, stop[0].store):
+        for l, v in find_iters(h.it, stop[0].store, frame=stop[0].frame):
             c = gen_of(v, h.it, stop[0].store)
             if c is not None:
                 r0 = h.it.read_ref(stop[0].store, c.field(0))
@@ -880,7 +901,7 @@ def r4_whole(facts, rep, names):
         return roles
     # the budget of the loop is `limit`
     base = stop[0].store
-    its = [(l, v) for l, v in find_iters(h.it, base, live=h.live_at(H)) if kind(v) == "take" and gen_of(v, h.it, base) is not None]
+    its = [(l, v) for l, v in find_iters(h.it, base, frame=h.frame(H), live=h.live_at(H)) if kind(v) == "take" and gen_of(v, h.it, base) is not None]
     okb = len(its) == 1 and kind(its[0][1]) == "take" and its[0][1].field(1) == Sym("L")
     rep.ob("C08-R4", "budget", okb, "the digit loop runs over take(generator, limit)" if okb else "digit iterator at the loop head: %r" % (its,), body.site())
     if not okb:
@@ -890,7 +911,7 @@ def r4_whole(facts, rep, names):
     rem_ref = c.field(0)
     # ---- one arbitrary turn ----
     st = dict(base)
-    st[(1, L_it)] = take(its[0][1].field(0), Sym("n"))
+    st[(h.frame(H), L_it)] = take(its[0][1].field(0), Sym("n"))
     st = h.it.write_ref(st, rem_ref, R)
     st = {k: (subst(v, ren) if not isinstance(k[0], str) else v) for k, v in st.items()}
     try:
@@ -980,10 +1001,11 @@ def r5_small(facts, rep, names):
     base = entry[0].store
     live = h.live_at(H1)
     vs = {l for l in h.variant_locals(H1) if l in live}
-    flags = sorted(l for l in vs if body.local_ty(l) == "bool")
-    ints = sorted(l for l in vs if body.local_ty(l) in ("i32", "i64", "isize"))
-    uns = sorted(l for l in vs if body.local_ty(l) in ("usize", "u32", "u64"))
-    its = [(l, v) for l, v in find_iters(h.it, base, live=live) if gen_of(v, h.it, base) is not None]
+    F1 = h.frame(H1)
+    flags = sorted(l for l in vs if h.ty(H1, l) == "bool")
+    ints = sorted(l for l in vs if h.ty(H1, l) in ("i32", "i64", "isize"))
+    uns = sorted(l for l in vs if h.ty(H1, l) in ("usize", "u32", "u64"))
+    its = [(l, v) for l, v in find_iters(h.it, base, frame=F1, live=live) if gen_of(v, h.it, base) is not None]
     okk = len(ints) == 1 and len(uns) == 1 and len(its) == 1 and kind(its[0][1]) == "gen"
     if not rep.ob("C08-R5", "anchor:state", okk, "loop state: flags %s, exponent %s, budget %s, generator %s" % (flags, ints, uns, [l for l, _ in its]), body.site()):
         return
@@ -992,10 +1014,10 @@ def r5_small(facts, rep, names):
     rem_ref = clos.field(0)
     den0 = h.it.read_ref(base, clos.field(1))
     rem0 = h.it.read_ref(base, rem_ref)
-    init_ok = h.local(base, Le) == Const(-1) and h.local(base, Ln) == Sym("L") and same(rem0, X_REM, GRID_X) and same(den0, X_ABS_D, GRID_X) \
-        and all(isinstance(h.local(base, f_), Const) for f_ in flags)
+    init_ok = h.local(base, Le, F1) == Const(-1) and h.local(base, Ln, F1) == Sym("L") and same(rem0, X_REM, GRID_X) and same(den0, X_ABS_D, GRID_X) \
+        and all(isinstance(h.local(base, f_, F1), Const) for f_ in flags)
     rep.ob("C08-R5", "entry", init_ok, "at the first turn: exponent %r (specified -1), budget %r (specified limit), generator over (%r, %r) (specified remainder, den)" % (
-        h.local(base, Le), h.local(base, Ln), rem0, den0), body.site())
+        h.local(base, Le, F1), h.local(base, Ln, F1), rem0, den0), body.site())
     negp = [b for p, b in entry[0].pc.items() if p == "is_negative(x)"]
     if not init_ok:
         return
@@ -1003,15 +1025,15 @@ def r5_small(facts, rep, names):
     def seed(flagvals, phase):
         st = dict(base)
         for f_, v in zip(flags, flagvals):
-            st[(1, f_)] = Const(v)
-        st[(1, Le)] = E
-        st[(1, Ln)] = N
+            st[(F1, f_)] = Const(v)
+        st[(F1, Le)] = E
+        st[(F1, Ln)] = N
         st = h.it.write_ref(st, rem_ref, R)
         if isinstance(clos.field(1), Ref):
             st = h.it.write_ref(st, clos.field(1), D)
         # neg is a local computed in the prologue: make it symbolic
         for (k, v) in list(st.items()):
-            if len(k) == 2 and k[0] == 1 and isinstance(v, Const) and isinstance(v.v, bool) and k[1] not in flags and body.local_ty(k[1]) == "bool" and body.local_name(k[1]):
+            if len(k) == 2 and k[0] == 1 and isinstance(v, Const) and isinstance(v.v, bool) and (F1 != 1 or k[1] not in flags) and body.local_ty(k[1]) == "bool" and body.local_name(k[1]):
                 st[k] = Sym("neg")
         return st, {"pc": phase_pc(phase)}
 
@@ -1030,7 +1052,7 @@ def r5_small(facts, rep, names):
                 return b, eq
         return None, True
 
-    init_flags = tuple(bool(h.local(base, f_).v) for f_ in flags)
+    init_flags = tuple(bool(h.local(base, f_, F1).v) for f_ in flags)
     work = [(init_flags, "LEAD")]
     seen = set()
     n_steps = 0
@@ -1066,12 +1088,12 @@ def r5_small(facts, rep, names):
             if s_.end == H2:
                 # the zero padding: one turn of the inner loop from an arbitrary start a
                 kinds.add("pad")
-                rng = [(l, v) for l, v in find_iters(h.it, s_.store, live=h.live_at(H2)) if isinstance(v, Agg) and v.path == "std::ops::Range"]
+                rng = [(l, v) for l, v in find_iters(h.it, s_.store, frame=h.frame(H2), live=h.live_at(H2)) if isinstance(v, Agg) and v.path == "std::ops::Range"]
                 if len(rng) != 1 or rng[0][1].field(0) != E or rng[0][1].field(1) != Const(-1):
                     bad.append("the zero padding runs over %s; specified e..-1" % (rng,))
                     continue
                 st2 = dict(s_.store)
-                st2[(1, rng[0][0])] = Agg(rng[0][1].kind, rng[0][1].path, rng[0][1].vi, rng[0][1].vname, (Sym("a"), Const(-1)))
+                st2[(h.frame(H2), rng[0][0])] = Agg(rng[0][1].kind, rng[0][1].path, rng[0][1].vi, rng[0][1].vname, (Sym("a"), Const(-1)))
                 keep_pc = tuple(pc_of(s_.store))
                 try:
                     inner = h.run(start=(H2, st2), extra={"pc": keep_pc, ("pulled",): pulled, ("rem_now",): rem_now})
@@ -1250,24 +1272,35 @@ def r6_big(facts, rep, names):
     base = stop[0].store
     live = h.live_at(H1)
     vs = {l for l in h.variant_locals(H1) if l in live}
-    uns = sorted(l for l in vs if body.local_ty(l) in ("usize", "u32", "u64"))
-    its = find_iters(h.it, base, live=live)
+    FB = h.frame(H1)
+    uns = sorted(l for l in vs if h.ty(H1, l) in ("usize", "u32", "u64"))
+    its = find_iters(h.it, base, frame=FB, live=live)
     takes = [(l, v) for l, v in its if kind(v) == "take"]
     peeks = [(l, v) for l, v in its if kind(v) == "peek"]
-    okk = len(uns) == 1 and len(takes) == 1 and len(peeks) == 1 and isinstance(takes[0][1].field(0), Ref) \
-        and takes[0][1].field(0) == Ref(1, peeks[0][0])
+    # the budget is either a Take adaptor over the digit iterator (its counter n, invariant n = limit - used) or the test
+    # `used < limit` itself
+    okk = len(uns) == 1 and len(takes) <= 1 and len(peeks) == 1 and (not takes or (
+        isinstance(takes[0][1].field(0), Ref) and takes[0][1].field(0) == Ref(FB, peeks[0][0])))
     if not rep.ob("C08-R6", "anchor:state", okk, "loop state: used %s, budget iterator %s over the digit iterator %s" % (uns, [l for l, _ in takes], [l for l, _ in peeks]), body.site()):
         return
-    Lu, Lt, Lp = uns[0], takes[0][0], peeks[0][0]
-    init_ok = h.local(base, Lu) == Const(0) and takes[0][1].field(1) == Sym("L") and peeks[0][1].field(0) == Const(1)
-    rep.ob("C08-R6", "whole-digits:entry", init_ok, "before the digit loop: used = %r (specified 0), budget %r (specified limit), one digit consumed" % (
-        h.local(base, Lu), takes[0][1].field(1)), body.site())
+    Lu, Lt, Lp = uns[0], (takes[0][0] if takes else None), peeks[0][0]
+    init_ok = h.local(base, Lu, FB) == Const(0) and (not takes or takes[0][1].field(1) == Sym("L")) and peeks[0][1].field(0) == Const(1)
+    rep.ob("C08-R6", "whole-digits:entry", init_ok, "before the digit loop: used = %r (specified 0), budget %s (specified limit), one digit consumed" % (
+        h.local(base, Lu, FB), repr(takes[0][1].field(1)) if takes else "by the test used < limit"), body.site())
+
+    def budget_left(seg):
+        """Does the path say that the whole-part budget is not exhausted?  True / False / None"""
+        if Lt is not None:
+            z = seg.pc.get("Eq(n, Const(0))")
+            return None if z is None else (not z)
+        return find_pred(seg, T("Lt", U, Sym("L")), [{"L": Fraction(l_), "u": Fraction(u_)} for l_ in range(0, 5) for u_ in range(0, 6)])
 
     def seed1(script):
         st = dict(base)
-        st[(1, Lu)] = U
-        st[(1, Lt)] = take(Ref(1, Lp), N)
-        st[(1, Lp)] = peekv(0)
+        st[(FB, Lu)] = U
+        if Lt is not None:
+            st[(FB, Lt)] = take(Ref(FB, Lp), N)
+        st[(FB, Lp)] = peekv(0)
         # the by-value BigInt parameters become symbols by role later; here every a<i> stays as is
         return st, {("script",): tuple(script)}
 
@@ -1284,18 +1317,19 @@ def r6_big(facts, rep, names):
             badl.append("undecided: %s" % e)
             continue
         for s_ in segs:
-            n0 = s_.pc.get("Eq(n, Const(0))")
+            bl = budget_left(s_)
+            n0 = None if bl is None else (not bl)
             pk = h.local(s_, Lp) if s_.end != "ret" else None
             if s_.end == H1:
                 kinds.add("digit")
-                tk = h.local(s_, Lt)
+                tk = h.local(s_, Lt) if Lt is not None else None
                 if n0 is not False or script[0] == "EOF":
-                    badl.append("a turn continues without n > 0 and a digit left")
+                    badl.append("a turn continues without budget and a digit left")
                 if tuple(s_.out) != (("val", c1),):
                     badl.append("one turn prints %s; specified exactly the next digit" % describe_out(s_.out))
                 if not same(h.local(s_, Lu), T("+", U, K(1)), GRID_LU):
                     badl.append("used becomes %r; specified used + 1" % (h.local(s_, Lu),))
-                if kind(tk) != "take" or not same(tk.field(1), T("-", N, K(1)), GRID_LU) or tk.field(0) != Ref(1, Lp):
+                if Lt is not None and (kind(tk) != "take" or not same(tk.field(1), T("-", N, K(1)), GRID_LU) or tk.field(0) != Ref(FB, Lp)):
                     badl.append("the budget becomes %r; specified n - 1" % (tk,))
                 if kind(pk) != "peek" or pk.field(0) != Const(1):
                     badl.append("the digit iterator moves to %r; specified one digit further" % (pk,))
@@ -1383,19 +1417,23 @@ def r6_big(facts, rep, names):
         return
     ent = h2_entries[0]
     live2 = h.live_at(H2)
-    its2 = [(l, v) for l, v in find_iters(h.it, ent.store, live=live2) if kind(v) == "take" and gen_of(v, h.it, ent.store) is not None]
-    okf = len(its2) == 1 and kind(its2[0][1]) == "take"
+    F2 = h.frame(H2)
+    gens2 = [(l, v) for l, v in find_iters(h.it, ent.store, frame=F2, live=live2) if gen_of(v, h.it, ent.store) is not None]
+    its2 = [(l, v) for l, v in gens2 if kind(v) == "take"]
+    cnt2 = sorted(l for l in h.variant_locals(H2) if l in live2 and h.ty(H2, l) in ("usize", "u32", "u64") and h.local(ent, l, F2) is not TOP)
+    # the budget: a Take adaptor over the generator, or a counter of the loop tested > 0
+    okf = (len(its2) == 1) or (not its2 and len(gens2) == 1 and len(cnt2) == 1)
     if okf:
-        bud = its2[0][1].field(1)
+        bud = its2[0][1].field(1) if its2 else h.local(ent, cnt2[0], F2)
         okf = same(bud, T("-", Sym("L"), U), GRID_LU)
-        clos = gen_of(its2[0][1], h.it, ent.store)
+        clos = gen_of((its2 or gens2)[0][1], h.it, ent.store)
         r0 = h.it.read_ref(ent.store, clos.field(0))
         d0 = h.it.read_ref(ent.store, clos.field(1))
         if isinstance(r0, Sym) and isinstance(d0, Sym):
             roles["rem"], roles["den"] = r0.name, d0.name
         else:
             okf = False
-    rep.ob("C08-R6", "fraction:entry", okf, "fraction digits run over take(generator(remainder, den), limit - used)" if okf else "fraction iterator: %r" % (its2,), body.site())
+    rep.ob("C08-R6", "fraction:entry", okf, "fraction digits come from generator(remainder, den) under a budget of limit - used" if okf else "fraction iterators: %r, counters %s" % (gens2, cnt2), body.site())
     if not okf:
         return
     ok_roles = set(roles) == {"div", "rem", "den"} and len(set(roles.values())) == 3
@@ -1403,10 +1441,13 @@ def r6_big(facts, rep, names):
     if not ok_roles:
         return
     names["roles_big"] = roles
-    Lf = its2[0][0]
+    Lf = its2[0][0] if its2 else None
     rem_ref = clos.field(0)
     st = dict(ent.store)
-    st[(1, Lf)] = take(its2[0][1].field(0), N)
+    if its2:
+        st[(F2, Lf)] = take(its2[0][1].field(0), N)
+    else:
+        st[(F2, cnt2[0])] = N
     st = h.it.write_ref(st, rem_ref, R)
     ren = {roles["den"]: D}
     st = {k: (subst(v, ren) if len(k) == 2 else v) for k, v in st.items()}
@@ -1419,12 +1460,16 @@ def r6_big(facts, rep, names):
     for s_ in segs:
         if excused(s_):
             continue
-        n0 = s_.pc.get("Eq(n, Const(0))")
+        if its2:
+            n0 = s_.pc.get("Eq(n, Const(0))")
+        else:
+            np_ = find_pred(s_, T("Gt", N, Const(0)), [{"n": Fraction(k)} for k in range(0, 5)])
+            n0 = None if np_ is None else (not np_)
         z = s_.pc.get("is_zero(R)")
         rem_now = s_.store.get(("rem_now",), TOP)
         if s_.end == H2:
             seen.add("digit")
-            tk = h.local(s_, Lf)
+            tk = h.local(s_, Lf) if its2 else take(None, h.local(s_, cnt2[0], F2))
             if n0 is not False or z is not False:
                 badf.append("a digit is pulled without n > 0 and R != 0")
             if len(s_.out) != 1 or s_.out[0][0] != "val" or not same(s_.out[0][1], Q):
